@@ -22,7 +22,8 @@ import JSV.Proofs.ResKnown
 import JSV.Proofs.Tot
 namespace JSV
 namespace Go
-namespace RInv
+namespace RTot
+open RInv
 open Uri
 
 /-! ### "no panic, and `Q` on normal return" -/
@@ -263,6 +264,6 @@ theorem allNodes_store (st : Store) : ∀ fuel work, ∀ x ∈ allNodes st fuel 
         · exact ih _ x h
       · exact ih _ x h
 
-end RInv
+end RTot
 end Go
 end JSV
